@@ -125,6 +125,33 @@ Theorem C01_class_side_conditions :
 Proof. exact class_side_conditions. Qed.
 Print Assumptions C01_class_side_conditions.
 
+(* ... and c.rs generate_hash_key, transcribed by the translator, hands ALL of that to the key functions: nothing is
+   filtered out of the argument vectors after parsing (reviewed list [DroppedFromKey], empty), the result key's vector
+   holds the whole common and arch lists, the preprocessor-level key's also the preprocessor list, both hold the
+   output path for profile / coverage builds, the environment reaches both key functions unabridged (or abridged to a
+   superset of both allow-lists), and the reference time of the "include is too new" guard is taken before the
+   preprocessor runs. *)
+Theorem C01_hash_key_side_conditions :
+  subset_b (dropped_preds main_key_args ++ dropped_preds pp_key_args) DroppedFromKey = true /\
+  has_whole_list main_key_args DCommon = true /\ has_whole_list main_key_args DArch = true /\
+  has_whole_list pp_key_args DPre = true /\ has_whole_list pp_key_args DArch = true /\
+  has_whole_list pp_key_args DCommon = true /\
+  existsb (fun c => match c with KProfileOutput => true | _ => false end) main_key_args = true /\
+  existsb (fun c => match c with KProfileOutput => true | _ => false end) pp_key_args = true /\
+  match env_prefilter with
+  | None => true
+  | Some l => subset_b (main_key_env ++ pp_key_env) l
+  end = true /\
+  subset_b main_key_env pp_key_env = true /\
+  key_order = key_order_expected.
+Proof. exact hash_key_side_conditions. Qed.
+Print Assumptions C01_hash_key_side_conditions.
+
+Theorem C01_hashed_args_reach_hash_key :
+  forall (p : parsed) (po : option bytes), incl (hashed_args p) (key_words main_key_args p po).
+Proof. exact hashed_args_reach_hash_key. Qed.
+Print Assumptions C01_hashed_args_reach_hash_key.
+
 (* Open findings, as theorems about the current code (witnesses by computation). *)
 Theorem C01_dep_target_without_md_dropped :
   exists argv p, parse_arguments the_tables gcc_env argv = ROk p /\ In (bs "-MT") argv /\
